@@ -37,7 +37,11 @@ out=["## 14. Detection results: seeded changes and which checks report them\n",
 "rendering, module layout, less-used settings, degenerate and very deep registries, round 8 the interplay of two",
 "features (a substituted type inside a generic definition, settings used twice, recursive registrations meeting",
 "instantiations), round 9 the small-scope boundary itself (changes that need at least THREE of something -",
-"instantiations, nesting levels, parameters, cycle length, fields - where one or two behave). Of the 324 changes",
+"instantiations, nesting levels, parameters, cycle length, fields - where one or two behave). A tenth, smaller",
+"round (one change each for C06 C07 C09 C11 C12 C13 C15 C16, stored as `-m19`) asked for error / fallback paths,",
+"early returns, swapped Option/Result combinators and state re-used between calls; three of its eight changes",
+"were missed at first (C06-m19 attribute-only recursive roots, C07-m19 a relative multi-segment fixed argument,",
+"C09-m19 a blank doc line at the end) and are reported after the alphabets were widened. Of the 332 changes",
 "about a quarter were NOT reported by the quick tier as it stood when they arrived; every miss was turned into",
 "a wider alphabet or a further oracle clause (sections 12.3 and 15) and re-run, which is what the table shows.",
 "Each was applied to a scratch worktree of /repo (never to /repo itself), the harness",
